@@ -25,7 +25,7 @@ RULE = ("random 'anchor fonts': 2-10 glyphs in the roles base / ligature / mark 
 ASSUMED = [
     "feaLib compiles `pos base|ligature|mark` statements and markClass definitions as written (one MarkArray per lookup from the classes it references; a later anchor for the same class in one statement overrides an earlier one) - exercised on every case through the compiled font",
     "the ordered glyph set, the GDEF glyph classes and the abvm / not-abvm glyph sets (Unicode script extensions) are inputs of the model; the harness computes them independently from the case description and fontTools.unicodedata",
-    "anchor names are ASCII (Python's \\d and str.isalpha are Unicode-aware); contextual anchors with GPOS_Context lib data, pre-existing mark features / markClass definitions in the feature file, variable fonts and GSUB closure of the abvm glyph set are not modelled",
+    "anchor names are ASCII (Python's \\d and str.isalpha are Unicode-aware); contextual anchors with GPOS_Context lib data, pre-existing mark/mkmk/abvm/blwm feature blocks in the feature file (hand-written markClass definitions ARE modelled: input `pre`; the theorems assume none), variable fonts and GSUB closure of the abvm glyph set are not modelled",
 ]
 
 BASE_KEYS = ["top", "bottom", "top.alt", "ogonek", "nukta", "bottomleft", "candra", "center", "top2", "topalt", "bottom.alt", "bottomcenter"]
@@ -190,6 +190,17 @@ def _fea(case):
     return "\n".join(lines)
 
 
+def _pre_classes(case):
+    """feaFile.markClasses as the hand-written `markClass` lines of _fea define them: [[class name, [[glyph, x, y], ...]], ...]
+    in order of first appearance"""
+    have = {(g["name"], a[0]) for g in case["glyphs"] for a in g["anchors"]}
+    out = {}
+    for g, k, x, y in case.get("premark") or []:
+        if (g, "_" + k) in have:
+            out.setdefault("MC_" + k, []).append([g, int(x), int(y)])
+    return [[n, recs] for n, recs in out.items()]
+
+
 def _gdef_input(case):
     if case["gdef"] == "none" or (case["gdef"] == "cats" and not any(
             c in ("unassigned", "base", "ligature", "mark", "component") for c in case["cats"].values())):
@@ -296,7 +307,8 @@ def run(case):
         obs = {"err": err}
     abvm, notabvm = _abvm_sets(case, order)
     inp = {"glyphs": [[".notdef", []]] + [[g["name"], [[a[0] or "", rat(a[1]), rat(a[2])] for a in g["anchors"]]] for g in case["glyphs"]],
-           "gdef": _gdef_input(case), "quant": rat(q), "group": case["group"], "abvm": abvm, "notAbvm": notabvm, "K": K}
+           "gdef": _gdef_input(case), "quant": rat(q), "group": case["group"], "abvm": abvm, "notAbvm": notabvm, "K": K,
+           "pre": _pre_classes(case)}
     tags = ["gdef:" + case["gdef"], "group" if case["group"] else "single", "quant:%s" % q, case["lib"]]
     if case.get("premark"):
         tags.append("predefined-markClass")
@@ -410,14 +422,6 @@ def agree(req, rep):
     if m.get("err") is not None or o.get("err") is not None:
         return m.get("err") == o.get("err")
     key = lambda e: (e[0], e[1], -1 if e[2] is None else e[2])
-    if "predefined-markClass" in req.get("tags", []):
-        # hand-written @MC_<key> classes change the generated class names and with them WHICH of several matching anchor
-        # keys wins for a pair (any candidate satisfies the property; the model does not contain the renaming): compare which
-        # attachments exist; the offsets are judged by the predicate (`holds`) against the UFO anchors
-        for f in FEATS + ["all"]:
-            if sorted(map(key, m["tables"][f])) != sorted(map(key, o["tables"][f])):
-                return False
-        return sorted(m["ligCount"]) == sorted(o["ligCount"])
     for f in FEATS + ["all"]:
         if sorted(m["tables"][f], key=key) != sorted(o["tables"][f], key=key):
             return False
@@ -493,4 +497,4 @@ LEVEL_NOTE = ("Hypothesis `wf`: glyph names distinct, every glyph in the abvm or
               "several keys match (C06_candidate_order_partial; the property allows any) - tied by correspondence only. Trusted: Lean kernel "
               "+ standard axioms; the correspondence harness and harness/gpos.py; feaLib's compilation of the generated statements; GDEF "
               "classes / abvm glyph sets / glyph order are inputs. Not modelled: contextual anchors with lib data, append mode and "
-              "pre-existing markClass definitions, variable fonts, GSUB closure of abvm glyphs.")
+              "variable fonts, GSUB closure of abvm glyphs. Hand-written markClass definitions are modelled (compared exactly) but outside `wf`: the theorems assume the feature file defines none.")
